@@ -6,6 +6,7 @@ import ast
 
 from ..astutil import unparse, is_self_attr, call_name, dotted, body_wo_doc, walk_no_nested_defs, is_const
 from ..berp import grammar, fmt_cont
+from ..names import N
 from ..common import AnalysisError, Report
 from ..facts import facts
 from ..product import run_product, lookahead_expected, LINE_KINDS
@@ -425,7 +426,7 @@ def rule_queue(rep: Report, rid="C18.queue") -> None:
            file=PARSER_FILE, line=rt["fi"].node.lineno, function=rt["fi"].qualname,
            expected="context.token_queue.popleft() if context.token_queue else context.token_scanner.read()", found=rt["found"])
     # nobody else touches token_queue
-    allowed = {f"{PC}.read_token"} | {i["fi"].qualname for i in pt.lookaheads.values()}
+    allowed = {f"{PC}.{N.READ_TOKEN}"} | {i["fi"].qualname for i in pt.lookaheads.values()}
     # helpers the look-ahead functions delegate to (call closure inside Parser)
     pcls = facts().cls(PC)
     work = [i["fi"] for i in pt.lookaheads.values()]
@@ -434,7 +435,7 @@ def rule_queue(rep: Report, rid="C18.queue") -> None:
         for n in walk_no_nested_defs(fx.node):
             if isinstance(n, ast.Call) and is_self_attr(n.func):
                 m = pcls.find_method(n.func.attr)
-                if m is not None and m.qualname not in allowed and not m.name.startswith("match_") and m.name not in ("parse", "match_token"):
+                if m is not None and m.qualname not in allowed and not m.name.startswith("match_") and m.name not in ("parse", N.MATCH_TOKEN):
                     allowed.add(m.qualname)
                     work.append(m)
     sites = 0
@@ -442,7 +443,7 @@ def rule_queue(rep: Report, rid="C18.queue") -> None:
         if f.module.name == "gherkin.inout":
             continue
         for n in walk_no_nested_defs(f.node):
-            if isinstance(n, ast.Attribute) and n.attr == "token_queue" and not is_self_attr(n):
+            if isinstance(n, ast.Attribute) and n.attr == N.CTX_QUEUE and not is_self_attr(n):
                 sites += 1
                 if f.qualname not in allowed:
                     rep.ob(rid, f"token_queue is used only by read_token and the look-ahead functions", False,
@@ -451,7 +452,7 @@ def rule_queue(rep: Report, rid="C18.queue") -> None:
     # queue object: a fresh, empty queue per parse
     P = parse_nf()
     from ..absint import HList, fmt
-    q = P.ctx_attr("token_queue")
+    q = P.ctx_attr(N.CTX_QUEUE)
     o = P.I.obj(q) if q else None
     ok = isinstance(o, HList) and not o.segs and o.origin[2] != 0 and not [n for n, c in P.flat if n[0] == "mutate" and n[1] == q]
     rep.ob(rid, "each parse starts with a fresh, empty look-ahead queue (deque)", ok, file=PARSER_FILE, line=P.fi.node.lineno, function=P.fi.qualname,
